@@ -30,6 +30,7 @@ import (
 	"bytes"
 	"encoding/json"
 	"fmt"
+	"hash/crc32"
 	"math/rand"
 	"os"
 	"os/exec"
@@ -494,6 +495,9 @@ func run(c *core.Ctx) error {
 		return replay(c)
 	}
 	rng := rand.New(rand.NewSource(c.Seed*7919 + 11))
+	// The multi-site random mutants are the same for every VERIF_SEED (the seed only selects which
+	// part of the deterministic case space the quick tier runs).
+	var fixed *rand.Rand
 
 	// ---- TLC: R1 runs start now and run concurrently with the Go-side work
 	type tlcOut struct {
@@ -558,18 +562,19 @@ func run(c *core.Ctx) error {
 	order := append(append([]Seed{}, seeds[rot:]...), seeds[:rot]...)
 	for _, s := range order {
 		var muts []Mutant
+		fixed = rand.New(rand.NewSource(int64(crc32.ChecksumIEEE([]byte(s.Format + "/" + s.Name)))))
 		switch s.Format {
 		case "zng":
 			muts, err = zngMutants(s.Data, 1<<20, full)
 			if err == nil && (full || strings.HasSuffix(s.Name, "/each")) {
-				muts = append(muts, randomMutants(rng, s.Data, 12)...)
+				muts = append(muts, randomMutants(fixed, s.Data, 12)...)
 			}
 		case "vng":
 			muts, err = vngMutants(s.Data, full)
-			muts = append(muts, randomMutants(rng, s.Data, 8)...)
+			muts = append(muts, randomMutants(fixed, s.Data, 8)...)
 		default:
 			muts = textMutants(s.Data, s.Format, full)
-			muts = append(muts, randomMutants(rng, s.Data, 8)...)
+			muts = append(muts, randomMutants(fixed, s.Data, 8)...)
 		}
 		if err != nil {
 			return fmt.Errorf("mutants of %s/%s: %w", s.Format, s.Name, err)
@@ -690,14 +695,15 @@ func run(c *core.Ctx) error {
 	zero := map[string]int{}
 	nruns := 0
 	for name, res := range tlcResults {
+		zc := finalZeroCoverage(res.Out)
 		if name == "detect" {
-			if len(res.ZeroCov) > 0 {
-				c.Inconclusive("AnyDetect: actions never taken: %v", res.ZeroCov)
+			if len(zc) > 0 {
+				c.Inconclusive("AnyDetect: actions never taken: %v", zc)
 			}
 			continue
 		}
 		nruns++
-		for _, a := range res.ZeroCov {
+		for _, a := range zc {
 			zero[a]++
 		}
 	}
@@ -738,6 +744,10 @@ func run(c *core.Ctx) error {
 	pk := 0
 	for _, row := range rows {
 		key := strings.Join(row.Stream, ",")
+		if os.Getenv("C11_CORRUPT_PRED") != "" && key == "V,C,V" {
+			// self-test: a wrong prediction must be noticed by the comparison with the real reader
+			row.Expected = [][]string{{"b", "b", "c", "end"}}
+		}
 		expectedOf[key] = row.Expected
 		fault := ""
 		for _, it := range row.Stream {
@@ -922,6 +932,25 @@ func run(c *core.Ctx) error {
 		return err
 	}
 	return nil
+}
+
+var reZeroAction = regexp.MustCompile(`(?m)^<(\w+) line \d+, col \d+ to line \d+, col \d+ of module \w+>: 0:0$`)
+
+// finalZeroCoverage lists the actions with zero coverage in the last coverage report of a TLC run
+// (interim reports of a long run are ignored).
+func finalZeroCoverage(out string) []string {
+	if i := strings.LastIndex(out, "The coverage statistics at"); i >= 0 {
+		out = out[i:]
+	}
+	seen := map[string]bool{}
+	var res []string
+	for _, m := range reZeroAction.FindAllStringSubmatch(out, -1) {
+		if !seen[m[1]] {
+			seen[m[1]] = true
+			res = append(res, m[1])
+		}
+	}
+	return res
 }
 
 // hookFrames counts the leading items of a stream that are dispatched to a worker and reach the
